@@ -66,39 +66,18 @@ def _r8(chk: Check, R8: str) -> None:
         raise AnalysisError('anchor vanished: no ops-limit subclass of ParserError')
     lim = limit[0]
     seen = {}
-    for label, fi, _ in entry_units(chk):
-        if fi.module.name.endswith(('.lexer', '.rules')) or label.endswith(('.parse', '.list_names')):
-            continue          # lexing/parsing never charges operations
-        se = SymExec(F, fi)
-        paths = se.run()
-        allp = list(paths)
-        for c in om.all_closures(paths):
-            if True:
-                allp += closure_paths(F, fi, c)
-        for p in allp:
-            for e in p.events:
-                if e.kind != 'exc_edge':
-                    continue
-                h = e.d['handler']
-                types = e.d['types']
-                catches_limit = False
-                for t in types:
-                    r = se.exc_subclass(('cls', lim), t)
-                    if r is True:
-                        catches_limit = True
-                if not catches_limit:
-                    continue
-                key = '%s :: except %s (line %d)' % (e.fn, '/'.join(q for _, q in types), h.lineno)
-                rc = common.raised_class(F, p.outcome[1]) if p.outcome[0] == 'raise' else None
-                reraises = p.outcome[0] == 'raise' and (freeze(p.outcome[1])[:1] == ('exc',) or freeze(p.outcome[1]) == ('unknown', 'reraise')
-                                                        or (rc is not None and rc == ('cls', lim)))
-                prev = seen.get(key, (True, '', 0, ''))
-                if not reraises:
-                    what = 'continues normally' if p.outcome[0] != 'raise' else 'raises %s instead' % show(p.outcome[1])
-                    seen[key] = (False, 'this handler also catches the ops-limit error (a %s) and %s: a run that exceeds its '
-                                        'budget inside the guarded code is not stopped' % (lim.rsplit('.', 1)[-1], what), h.lineno, fi.module.rel)
-                elif prev[0]:
-                    seen[key] = (True, 're-raises', h.lineno, fi.module.rel)
+    for key, e, p, fi, se in common.handlers_catching(chk, lim):
+        h = e.d['handler']
+        rc = common.raised_class(F, p.outcome[1]) if p.outcome[0] == 'raise' else None
+        reraises = p.outcome[0] == 'raise' and (freeze(p.outcome[1])[:1] == ('exc',) or freeze(p.outcome[1]) == ('unknown', 'reraise')
+                                                or (rc is not None and rc == ('cls', lim)))
+        prev = seen.get(key, (True, '', 0, ''))
+        if not reraises:
+            what = 'continues normally' if p.outcome[0] != 'raise' else 'raises %s instead' % show(p.outcome[1])
+            seen[key] = (False, 'this handler also catches the ops-limit error (a %s) and %s: a run that exceeds its '
+                                'budget inside the guarded code is not stopped' % (lim.rsplit('.', 1)[-1], what), h.lineno, fi.module.rel)
+        elif prev[0]:
+            seen[key] = (True, 're-raises', h.lineno, fi.module.rel)
     for key, (ok, det, line, rel) in sorted(seen.items()):
         chk.require(ok, R8, key, '%s:%d' % (rel, line), det)
     # handlers that cannot catch it are the normal case: record them so the rule is not vacuous
@@ -258,6 +237,7 @@ def _r4(chk: Check, R4: str) -> None:
     F.cls(vm)
     paths = SymExec(F, fi).run()
     ctor_problems, use_problems = [], []
+    skipped = []
     n_ctor = n_use = 0
     seen_ctor_nodes, seen_use_nodes = set(), set()
     for p in paths:
@@ -265,6 +245,10 @@ def _r4(chk: Check, R4: str) -> None:
         evals = [e for e in p.events if e.kind == 'call' and isinstance(freeze(e.func), tuple)
                  and freeze(e.func)[0] == 'attr' and freeze(e.func)[2] == 'eval'
                  and e.resolved is None]
+        if p.normal and not evals and p.outcome[1] != ('const', None):
+            # a result handed to the caller that no budgeted evaluation produced on this call (a memo of earlier results,
+            # a shortcut for "constant" programs): whether the call is stopped no longer depends on its own N
+            skipped.append(show(p.outcome[1]))
         for e in evals:
             seen_use_nodes.add(e.node)
             a = e.args
@@ -303,6 +287,9 @@ def _r4(chk: Check, R4: str) -> None:
     for n in seen_ctor_nodes:
         chk.require(not ctor_problems, R4, q + ' :: ' + 'VMState(...)', '%s:%d' % (fi.module.rel, n.lineno),
                     '; '.join(sorted(set(ctor_problems))) or 'fresh state, budget = parameter, counter = 0')
+    chk.require(not skipped, R4, q + ' :: every result comes from an evaluation of this call', fi.where,
+                ('a path returns %s without evaluating a tree under the budget of this call' % skipped[0]) if skipped else
+                'every returning path either evaluates the tree with the state of this call or returns None')
     for n in sorted(seen_use_nodes, key=lambda n: n.lineno):
         mine = [u for u in use_problems if norm(n) in u]
         chk.require(not mine and not [u for u in use_problems if 'different states' in u], R4,
@@ -327,12 +314,24 @@ def _r5(chk: Check, R5: str, rootq: str) -> None:
                     and fi.qual.rsplit('.', 1)[-1] not in ('__init__', '__post_init__', '__new__'):
                 # new = x.ops + 1; x.ops = new  (the counter is read and written back in the same function)
                 holders.append(q)
+    extra_nodes = set()
+    holder_ids = set()          # the functions that make up the charge function besides charge_q
     if rootq in holders or not holders:
         charge_q = rootq
     else:
-        charge_q = holders[0]
+        hname = holders[0].rsplit('.', 1)[-1]
+        if rootq in F.functions and any((isinstance(x, ast.Attribute) and x.attr == hname) or (isinstance(x, ast.Name) and x.id == hname)
+                                        for x in ast.walk(F.func(rootq).node)):
+            # the root eval delegates the increment to a helper (state.charge(), _charge(state)): the charge function is the
+            # root eval together with that helper
+            charge_q = rootq
+            for h in holders:
+                extra_nodes.update(ast.walk(F.func(h).node))
+                holder_ids.add(id(F.func(h).node))
+        else:
+            charge_q = holders[0]
     root_fi = F.func(charge_q)
-    root_nodes = set(ast.walk(root_fi.node))
+    root_nodes = set(ast.walk(root_fi.node)) | extra_nodes
     # housekeeping of the state class itself: its constructor fills the fields of the object being built, and its value
     # protocol (__repr__/__eq__/... and private helpers only they use) reads them; evaluation code never applies that
     # protocol to a state (R7: the state is handed to child evaluations only)
@@ -372,8 +371,8 @@ def _r5(chk: Check, R5: str, rootq: str) -> None:
                     if '.ply' in fi2.module.name or q2 == vm + '.' + mn:
                         continue
                     if any(isinstance(x, ast.Attribute) and x.attr == mn for x in ast.walk(fi2.node)):
-                        users.add(q2)
-                if users and users <= {charge_q}:
+                        users.add(id(fi2.node))         # (a node class that inherits eval is listed under its own name too)
+                if users and users <= ({id(root_fi.node)} | holder_ids):
                     root_nodes.update(ast.walk(mnode))
         init = vci.methods.get('__init__')
         if init is not None and init.args.args:
